@@ -388,6 +388,8 @@ fn replay_one(beh: &Value, tag: &str) -> (usize, usize, Vec<Value>, Option<Strin
     let mut now_at_query = 0i64;
     let mut real_mbox: std::collections::VecDeque<Message> = Default::default();
     let mut measured_real = false;
+    // bound (PHC term included) of every report handed to the updater so far, whatever its class
+    let mut seen_bounds: std::collections::HashSet<i64> = std::collections::HashSet::new();
     let mut add = |viol: &mut Vec<Value>, p: &str, sig: &str, what: String| {
         if viol.len() < 5 {
             viol.push(json!({"property": p, "signature": sig, "what": what}));
@@ -442,6 +444,9 @@ fn replay_one(beh: &Value, tag: &str) -> (usize, usize, Vec<Value>, Option<Strin
             "PollDecide" => {
                 let m = &st["v"];
                 let kind = m["kind"].as_str().unwrap();
+                if kind == "Data" {
+                    seen_bounds.insert(m["rep"]["b"].as_i64().unwrap_or(0) + m["phc"].as_i64().unwrap_or(0));
+                }
                 // PHC file as the model chose: readable with the value, or unreadable
                 let _ = std::fs::remove_file(&phc_file);
                 // (when the report's reference is not the PHC, the file is irrelevant by specification:
@@ -539,6 +544,11 @@ fn replay_one(beh: &Value, tag: &str) -> (usize, usize, Vec<Value>, Option<Strin
                             }
                         }
                     }
+                }
+                if bound != want_bound && bound != 0 && !seen_bounds.contains(&bound) {
+                    // not the bound (PHC term included) of ANY report handed to the updater so far: the value is wrong,
+                    // not merely the choice of report (C07's business as well as C08's)
+                    add(&mut viol, "C07", "bound-of-no-report", format!("published bound {bound} is not the bound (PHC term included) of any report so far {:?}; the latest synchronised report gives {want_bound}; outcome {:?}", seen_bounds, st["v"]));
                 }
                 if as_of != want_asof || bound != want_bound {
                     add(&mut viol, "C08", "bound-asof-not-tracking", format!("published (bound {bound}, as_of {as_of}) after outcome {:?}; the latest synchronised report gives (bound {want_bound}, as_of {want_asof})", st["v"]));
